@@ -165,13 +165,13 @@ func v6(s string) []byte {
 
 // genConversation draws the two endpoints of a conversation and returns a generator of its packets.
 type conversation struct {
-	v4         bool
-	proto      byte
-	a, b       []byte
-	pa, pb     uint16
-	icmpReq    byte
-	icmpRep    byte
-	handshake  bool
+	v4        bool
+	proto     byte
+	a, b      []byte
+	pa, pb    uint16
+	icmpReq   byte
+	icmpRep   byte
+	handshake bool
 }
 
 func genConversation(t *sim.Tape, allowV6 bool) conversation {
